@@ -216,6 +216,24 @@ def handleC09 : List String → Option String
     let gfix ← parseBool gfix
     let t ← ofHex text
     some (showReadResult (zoneFromText t o rel chk gfix))
+  | "c09.readinc" :: origin :: rel :: chk :: gfix :: allow :: text :: files => do
+    -- files: name₁ content₁ name₂ content₂ … (hex; names as written after `$INCLUDE`)
+    let o ← parseOptName origin
+    let rel ← parseBool rel
+    let chk ← parseBool chk
+    let gfix ← parseBool gfix
+    let allow ← parseBool allow
+    let t ← ofHex text
+    let rec pairs : List String → Option (List (List Nat × List Nat))
+      | [] => some []
+      | [_] => none
+      | a :: b :: rest => do
+        let a ← ofHex a
+        let b ← ofHex b
+        let r ← pairs rest
+        some ((a, b) :: r)
+    let fs ← pairs files
+    some (showReadResult (zoneFromText t o rel chk gfix fs allow))
   | "c09.write" :: origin :: zrel :: zone :: style => do
     let o ← parseOptName origin
     let zrel ← parseBool zrel
